@@ -1201,9 +1201,10 @@ SPEC = {
                     'an integer kept in an object stream (deferred)); files of several sections (Prev): the Prev loop, newest-entry-wins and the three '
                     'passes of the reader over the merged table are proved format-independently (C02_prev_chain, C02_merge_newest_wins, '
                     'C02_load_chain_frame); that the parts ref_write_multi lays out form such a chain and load to the document is proved for every file '
-                    'without object streams (C02_loads_multi_mixed) and for one-part files with object streams (C02_loads_multi_objstm_partial); not '
-                    'proved: object streams in files of two or more parts (C02_loads_multi_partial, a Definition; false without the domain clause '
-                    'part_dom: C02_loads_multi_partial_needs_domain)',
+                    'without object streams (C02_loads_multi_mixed), for one-part files with object streams (C02_loads_multi_objstm_partial) and for files '
+                    'of any number of parts with object streams in any of them (C02_loads_multi_objstm; C02_full_all is the union); the statement '
+                    'without a domain (C02_loads_multi_partial, a Definition) is false: C02_loads_multi_partial_needs_domain; outside the domains: a '
+                    'superseded definition of a number that is a member of an object stream (part_dom) and a table part that lists a type-2 entry again',
     'rule': '(style, abstract document) pairs: 1-12 objects of every kind nested to depth 3 with adversarial bytes in names and strings, '
             'streams with direct or indirect Length; styles randomise fillers (6 white-space bytes, comments with every EOL), name escapes, '
             'literal/hex string spellings (octal 1-3 digits, short escapes, ignored backslash, continuations, raw EOLs, hex white-space, odd '
@@ -1237,19 +1238,21 @@ MANIFEST = {
                   'cross-reference STREAM (any W / Index / filter chain; mixed chains; Length direct or a reference into any part) loads '
                   'to exactly the objects the document defines (by value) plus the cross-reference stream objects, and to its trailer '
                   'entries; the superseded bodies are not delivered; with object streams: a one-part file of ref_write_multi is the '
-                  'single-section file of the part\'s style (C02_multi_one_part_is_single), C02_loads_multi_objstm_partial / '
-                  'C02_full_all_partial state the union of all proved files with the conclusion of C02_full, and the writer\'s merged table '
-                  'names every member of an object stream in its own container and every current definition at its place whatever later '
-                  'parts supersede (C02_multi_members_named, C02_multi_known_keeps_current); object streams in files of two or more parts '
-                  'are checked by correspondence against an independent reference writer extracted from Coq',
-    'level_note': 'partial only in: files of TWO OR MORE cross-reference sections that also hold OBJECT STREAMS (C02_loads_multi_partial stays a '
-                  'Definition; without a domain it is FALSE: C02_loads_multi_partial_needs_domain -- write_parts accepts a superseded '
-                  'definition of a member\'s number when a later part merely names the number, a defect of the reference writer\'s style '
-                  'space that the generator never draws; the domain clause part_dom excludes it; every other multi-section file of the '
-                  'reference writer is covered by C02_loads_multi_mixed, one-part files with object streams by '
-                  'C02_loads_multi_objstm_partial, the format-independent half is proved for all; missing: the invariant of '
-                  'LoadsMultiMixed.v with type-2 entries and LoadsObjStmFile.GenFile restated per part, notes/C02.md round 6); open findings C02-raw-eol (raw CR in literal strings) and C02-deep-parens (nesting above '
-                  '100) are excluded by decidable classes on the input',
+                  'single-section file of the part\'s style (C02_multi_one_part_is_single); C02_loads_multi_objstm: a file of ANY number of parts '
+                  'with object streams in ANY of them (type-2 entries in the merged table, members listed again, Length direct / through a '
+                  'top-level integer of any part / through a member of an object stream of any part) loads to exactly the objects (by value), '
+                  'trailer and version it defines -- the invariant of the parts with type-2 entries (every member of a finished part is named '
+                  'by the type-2 entry of its container) and the reader\'s three passes on the merged table for any buffer; C02_full_all states '
+                  'the union of all proved files with the conclusion of C02_full; the writer\'s merged table names every member of an object '
+                  'stream in its own container and every current definition at its place whatever later parts supersede '
+                  '(C02_multi_members_named, C02_multi_known_keeps_current)',
+    'level_note': 'the statement for the whole style space of ref_write_multi without a domain (C02_loads_multi_partial, a Definition) is FALSE: '
+                  'C02_loads_multi_partial_needs_domain -- write_parts accepts a superseded definition of a member\'s number when a later part '
+                  'merely names the number, a defect of the reference writer\'s style space that the generator never draws; the domain clause '
+                  'part_dom (a superseded definition is one of a top-level object) excludes it; also outside: a table part that lists a type-2 '
+                  'entry again (a table cannot express one); every other file of ref_write / ref_write_multi is covered by C02_full, '
+                  'C02_loads_multi_mixed, C02_loads_multi_objstm (union: C02_full_all; notes/C02.md round 7); open findings C02-raw-eol (raw CR '
+                  'in literal strings) and C02-deep-parens (nesting above 100) are excluded by decidable classes on the input',
     'technique': 'Coq proofs over Gallina models of xref.rs / parser_aux.rs / object_stream.rs / the xref table parser / the token '
                  'parsers; differential check of the models on valid and malformed inputs; reference PDF writer in Gallina '
                  '(Spec/RefWriter.v) extracted to OCaml feeds Document::load_mem and Model/Loader.v',
